@@ -10,6 +10,7 @@ import (
 	"runtime/debug"
 	"strconv"
 	"strings"
+	"sync"
 	"sync/atomic"
 	"time"
 
@@ -38,6 +39,7 @@ type Interp struct {
 	inStep  uint32
 	parked  map[string]*parked
 	arming  *parked
+	stormNo int
 }
 
 // parked is an api.Entry call running on its own goroutine and held at the yield point
@@ -250,6 +252,89 @@ func doEntry(t []string) (*base.SentinelEntry, string) {
 	return e, "pass"
 }
 
+// storm: real parallelism. Per round a fresh value; g goroutines call api.Entry(res, value) at once; when all have
+// decided, the admitted ones exit; then a sequential probe admits entries for the value until the first refusal (at most
+// g+8) and exits them. Returns the least / greatest number of entries the probe admitted over all rounds: on correct
+// code the cells are back at 0 after the exits whatever the schedule, so this is one fixed number.
+func (it *Interp) storm(res, kind string, g, rounds int) string {
+	it.stormNo++
+	procs := runtime.NumCPU()
+	if procs > 16 {
+		procs = 16
+	}
+	if procs < 2 {
+		procs = 2
+	}
+	old := runtime.GOMAXPROCS(procs)
+	defer runtime.GOMAXPROCS(old)
+	lo, hi := -1, -1
+	got := make([]*base.SentinelEntry, g)
+	probe := make([]*base.SentinelEntry, 0, g+8)
+	// g persistent workers; a round starts for all of them at once when `gen` reaches its number (they spin on it, so
+	// that the calls really overlap), and is over when `decided` has counted g more decisions
+	var gen, decided int64
+	var cur interface{}
+	yield := procs <= g
+	var wg sync.WaitGroup
+	wg.Add(g)
+	for i := 0; i < g; i++ {
+		go func(i int) {
+			defer wg.Done()
+			for r := int64(1); r <= int64(rounds); r++ {
+				for n := 0; atomic.LoadInt64(&gen) < r; n++ {
+					if yield || n&255 == 255 {
+						runtime.Gosched()
+					}
+				}
+				e, _ := sentinel.Entry(res, sentinel.WithArgs(cur))
+				got[i] = e
+				atomic.AddInt64(&decided, 1)
+			}
+		}(i)
+	}
+	for r := 1; r <= rounds; r++ {
+		var v interface{}
+		if kind == "s" {
+			v = "w" + strconv.Itoa(it.stormNo) + "_" + strconv.Itoa(r)
+		} else {
+			v = 1000000 + it.stormNo*100000000 + r
+		}
+		cur = v
+		atomic.StoreInt64(&gen, int64(r))
+		for n := 0; atomic.LoadInt64(&decided) < int64(r)*int64(g); n++ {
+			if yield || n&255 == 255 {
+				runtime.Gosched()
+			}
+		}
+		for i, e := range got {
+			if e != nil {
+				e.Exit()
+				got[i] = nil
+			}
+		}
+		probe = probe[:0]
+		for len(probe) < g+8 {
+			e, b := sentinel.Entry(res, sentinel.WithArgs(v))
+			if b != nil {
+				break
+			}
+			probe = append(probe, e)
+		}
+		n := len(probe)
+		for _, e := range probe {
+			e.Exit()
+		}
+		if lo < 0 || n < lo {
+			lo = n
+		}
+		if n > hi {
+			hi = n
+		}
+	}
+	wg.Wait()
+	return fmt.Sprintf("lo=%d hi=%d", lo, hi)
+}
+
 // finish lets a parked entry run to completion and returns its result.
 func (it *Interp) finish(id string) string {
 	p := it.parked[id]
@@ -290,6 +375,8 @@ func (it *Interp) Step(t []string, op string) string {
 			return "err"
 		}
 		return ""
+	case "storm":
+		return it.storm(t[1], t[2], int(vh.U(t[3])), int(vh.U(t[4])))
 	case "reloadres":
 		rules := make([]*hotspot.Rule, 0, len(t)-2)
 		for _, s := range t[2:] {
